@@ -120,7 +120,10 @@ FirstBad(st, ops, obs, n) ==
           THEN FirstBad(x.st, ops, obs, n + 1)
           ELSE n
 
-OrdBad(r) == IF r.ordon THEN {FirstBad(St0, r.ops, r.runs[x].obs.ord, 1) : x \in 1..Len(r.runs)} \ {0} ELSE {}
+\* the probe records of a group are interned: r.ordtab lists the distinct record lists,
+\* a run refers to one by index
+OrdBad(r) == IF r.ordon THEN {FirstBad(St0, r.ops, r.ordtab[t], 1) : t \in {r.runs[x].obs.ord : x \in 1..Len(r.runs)}} \ {0}
+             ELSE {}
 
 (***************************************************************************)
 (* (3) dir(x) is strictly ascending                                        *)
@@ -147,10 +150,17 @@ HashBad(r) == {n \in 1..Len(r.hashes) :
 (***************************************************************************)
 (* verdict per record                                                      *)
 (***************************************************************************)
+\* Records are compressed by interning: r.tab[c] lists the distinct values of component c
+\* within the group and a run stores indices.  Runs(r) expands them again, so that Det is
+\* applied to the observations themselves.
+Runs(r) == [x \in 1..Len(r.runs) |->
+              [key |-> r.runs[x].key, kind |-> r.runs[x].kind, fp |-> r.runs[x].fp,
+               obs |-> [c \in Components |-> r.tab[c][r.runs[x].obs[c]]]]]
+
 Vacuous(r) == ~(Covered(r.runs, r.need) /\ OneInput(r.runs) /\ SeedsVary(r.runs))
 
 Why(r) == IF Vacuous(r) THEN <<"vacuous">>
-          ELSE IF ~Deterministic(r.runs) THEN <<"det", Divergence(r.runs), Deviants(r.runs)>>
+          ELSE IF ~Deterministic(Runs(r)) THEN <<"det", Divergence(Runs(r)), Deviants(Runs(r))>>
           ELSE IF OrdBad(r) # {} THEN <<"ord", OrdBad(r)>>
           ELSE IF DirBad(r) # {} THEN <<"dir", DirBad(r)>>
           ELSE IF HashBad(r) # {} THEN <<"hash", HashBad(r)>>
@@ -158,9 +168,12 @@ Why(r) == IF Vacuous(r) THEN <<"vacuous">>
 
 Good(r) == Why(r)[1] = "ok"
 
+\* one trivial initial state; the records are enumerated in Next (TLC evaluates the
+\* invariant of initial states on its main thread, whose stack is small)
 K == 64
-Init == recno \in 1..(IF Len(Recs) < K THEN Len(Recs) ELSE K)
-Next == recno + K <= Len(Recs) /\ recno' = recno + K
-Check == Good(Recs[recno]) \/ PrintT(<<"BAD", Recs[recno].id, Why(Recs[recno])>>)
-Done == PrintT(<<"CHECKED", TLCGet("stats").distinct>>)
+Init == recno = 0
+Next == IF recno = 0 THEN recno' \in 1..(IF Len(Recs) < K THEN Len(Recs) ELSE K)
+        ELSE recno + K <= Len(Recs) /\ recno' = recno + K
+Check == recno = 0 \/ Good(Recs[recno]) \/ PrintT(<<"BAD", Recs[recno].id, Why(Recs[recno])>>)
+Done == PrintT(<<"CHECKED", TLCGet("stats").distinct - 1>>)
 =============================================================================
